@@ -119,11 +119,20 @@ Theorem C08_tar_view :
     archives clean tar d ->
     forall p,
       (dlookup p d <> None \/ (forall e, In e tar -> clean (te_raw e) <> p) ->
-       tar_open clean tar p = dir_open d p) /\
+       tar_open clean true tar p = dir_open d p) /\
       (dlookup p d = None -> (exists e, In e tar /\ clean (te_raw e) = p) ->
-       tar_open clean tar p = FUnsupported).
+       tar_open clean true tar p = FUnsupported).
 Proof. exact tar_view. Qed.
 Print Assumptions C08_tar_view.
+
+(* internal/fs/tarfs as found (audit F1): members stored sparse by GNU tar -S / bsdtar do not
+   open to their content; the repaired Open ([true]) decodes them. *)
+Theorem C08_tar_view_refuted_sparse :
+  exists (clean : nat -> nat) (tar : list tentry) (d : dirfs) (p : nat),
+    archives clean tar d /\ dlookup p d <> None /\
+    tar_open clean false tar p <> dir_open d p /\ tar_open clean true tar p = dir_open d p.
+Proof. exact tar_view_refuted_sparse. Qed.
+Print Assumptions C08_tar_view_refuted_sparse.
 
 (* The code as found accepts the digest string of other stored content as a tag name and the
    reopened store then differs (Predecessors); the repaired Tag answers ErrInvalidReference,
